@@ -73,9 +73,16 @@ func unmarshalBitfield(data []byte) (*bitset.BitSet, error) {
 	if numBits > uint64(len(data)-headerSize)*8 {
 		return nil, fmt.Errorf("bitfield declares %d bits but holds %d bytes", numBits, len(data)-headerSize)
 	}
-	bitfield := bitset.New(0)
-	if err := bitfield.UnmarshalBinary(data); err != nil {
+	decoded := bitset.New(0)
+	if err := decoded.UnmarshalBinary(data); err != nil {
 		return nil, err
+	}
+	// The data is a whole number of 64-bit words, so the last word may carry bits at
+	// positions beyond the declared length. The decoder keeps them, and they would
+	// later show up as set pieces with out-of-range indices. Keep only the declared bits.
+	bitfield := bitset.New(decoded.Len())
+	for i, ok := decoded.NextSet(0); ok && i < decoded.Len(); i, ok = decoded.NextSet(i + 1) {
+		bitfield.Set(i)
 	}
 	return bitfield, nil
 }
